@@ -102,6 +102,27 @@ func c17V4OnlyGeoIP() geoip.Database {
 	return db
 }
 
+// c17Statement: the leading words of a log line's message (after prefix, date and time), lower-case, dash-joined.
+func c17Statement(line string) string {
+	f := strings.Fields(line)
+	var w []string
+	for _, x := range f {
+		raw := x
+		x = strings.ToLower(strings.Trim(x, ",:;.()"))
+		if x == "" || strings.ContainsAny(raw, "0123456789/[]") {
+			if len(w) > 0 {
+				break
+			}
+			continue
+		}
+		w = append(w, x)
+		if len(w) == 6 {
+			break
+		}
+	}
+	return strings.Join(w, "-")
+}
+
 // c17RedisRefusingPublish speaks enough of the redis protocol to refuse every PUBLISH with an error reply.
 func c17RedisRefusingPublish(c net.Conn) {
 	defer c.Close()
@@ -355,6 +376,63 @@ func verifC17Other(e *venum.E, a *vh.Args, only string, capf *os.File) {
 			}
 			cj.GetProxyStats().PrintAndReset(log.New(capf, "[STATS] ", 0))
 			judge(id, needles(cip), "client-address-in-log:detector-channel:"+mode)
+		}
+	}
+	// (5) the ingest pipeline's own log lines: what the station says about a registration it drops (covert refused by
+	// policy or malformed, phantom answers the liveness probe, phantom blocklisted) or admits, per registrant family
+	for _, oc := range []struct{ name, covert string }{{"covert-blocklisted", "127.0.0.1:22"}, {"covert-malformed", "no covert here"}, {"covert-empty", ""}, {"phantom-live", "93.184.216.34:443"}, {"admitted", "93.184.216.34:443"}, {"admitted-twice", "93.184.216.34:443"}} {
+		for _, cip := range clients {
+			id := fmt.Sprintf("part=ingest;outcome=%s;registrant=%v", oc.name, cip)
+			if !run(id) {
+				continue
+			}
+			reset()
+			conf := &cj.RegConfig{EnableIPv4: true, EnableIPv6: true, CovertBlocklistSubnets: []string{"127.0.0.0/8", "10.0.0.0/8"}}
+			if err := cj.VerifParseBlocklists(conf); err != nil {
+				vh.Fatal("%v", err)
+			}
+			tester := &vfix.Tester{}
+			if oc.name == "phantom-live" {
+				tester.Live = func(string, uint16) bool { return true }
+			}
+			rm := vfix.Manager(conf, vfix.Selector(vfix.SubnetsTOML), tester, vfix.AllWrapping, capf)
+			var anns []cj.VerifDetectorMsg
+			rm.VerifCaptureDetector(&anns)
+			addr := []byte(cip)
+			m := vfix.Msg{Secret: vfix.Secret(41), Transport: pb.TransportType_Min, V4: true, V6: true, Gen: 1, LibVer: 4, Covert: oc.covert, Source: pb.RegistrationSource_API, Addr: addr}
+			if p, msg, site := venum.Guard(func() {
+				rounds := 1
+				if oc.name == "admitted-twice" {
+					rounds = 2
+				}
+				for i := 0; i < rounds; i++ {
+					regs, err := rm.VerifParseRegMessage(m.Bytes())
+					if err != nil {
+						return
+					}
+					for _, r := range regs {
+						if r != nil {
+							rm.VerifIngest(r)
+						}
+					}
+				}
+				rm.RemoveOldRegistrations()
+			}); p {
+				e.Violation("panic:"+site, id+": "+msg, map[string]any{"case": id})
+				continue
+			}
+			// the key names the log statement that carries the address (its leading words), so that a listed finding
+			// stands for one statement and a second leaking statement under the same outcome is still reported
+			out, _ := os.ReadFile(capf.Name())
+			site := ""
+			for _, line := range strings.Split(string(out), "\n") {
+				for _, nd := range needles(cip) {
+					if site == "" && strings.Contains(line, nd) {
+						site = c17Statement(line)
+					}
+				}
+			}
+			judge(id, needles(cip), "client-address-in-log:ingest:"+oc.name+":"+site)
 		}
 	}
 	// (3) accept path on a real loopback socket: duplicating the descriptor fails (descriptor limit reached)
